@@ -131,8 +131,22 @@ def w_tdmd(ctx, rng, idx):
         # core carries the weights; (T,F) last core right-orthonormal, spatial cores generic
         for (xx, fl, fr) in [(xg, False, False), (x, False, True), (xr, True, False)]:
             if rng.random() < 0.7:
-                call('tdmd.tdmd_exact', td.tdmd_exact, xx, y, prop=P, refusals=(np.linalg.LinAlgError,), threshold=thr, ortho_l=fl, ortho_r=fr)
-                call('tdmd.tdmd_standard', td.tdmd_standard, xx, y, prop=P, refusals=(np.linalg.LinAlgError,), threshold=thr, ortho_l=fl, ortho_r=fr)
+                for nm, fn in (('tdmd.tdmd_exact', td.tdmd_exact), ('tdmd.tdmd_standard', td.tdmd_standard)):
+                    ok_, r_ = call(nm, fn, xx, y, prop=P, refusals=(np.linalg.LinAlgError,), threshold=thr, ortho_l=fl, ortho_r=fr)
+                    if ok_ and rng.random() < 0.5:
+                        # "the input tensor trains are not modified" - also not afterwards, when the caller edits the modes it was handed in place
+                        with probe.oracle():
+                            from ..dense import Snap
+                            sx, sy = Snap(xx), Snap(y)
+                            modes = r_[1]
+                            for c_ in modes.cores:
+                                if isinstance(c_, np.ndarray) and c_.flags.writeable and c_.dtype.kind in 'fc':
+                                    c_ *= 0.5
+                            dx, dy = sx.diff(), sy.diff()
+                        ctx.check(nm, 'inputs_unchanged_when_the_returned_modes_are_edited_in_place', dx is None and dy is None, ['ortho_l=%s' % fl, 'ortho_r=%s' % fr],
+                                  {'x': dx, 'y': dy} if (dx or dy) else None, prop=P)
+                        if dx is not None or dy is not None:
+                            return
     if idx < 3:
         ctx.sample({'workload': 'tdmd', 'spatial_dims': dims, 'snapshots': m, 'data': label, 'threshold': thr, 'tt_ranks_of_x': x.ranks})
 
